@@ -16,6 +16,7 @@
 //!   ext   : explicit-state search over extension runs (ext.rs)
 
 mod ext;
+mod extra;
 mod gate;
 mod groups;
 mod model;
@@ -34,6 +35,10 @@ use std::sync::Mutex;
 use vcore::*;
 
 fn main() {
+    if std::env::var("C19_WORKER").is_ok() {
+        extra::worker_main();
+        return;
+    }
     main_for("C19", body)
 }
 
@@ -625,7 +630,8 @@ fn body(run: &Run, replay: Option<&Value>) {
     // conformance gate of encoders + reference (exit 2 if it fails)
     let gate_ok = gate::run_gate(run);
     run.extra("reference_assumptions", gate::reference_assumptions());
-    if !gate_ok {
+    let gate2_ok = extra::gate_templates(run, &base);
+    if !gate_ok || !gate2_ok {
         return;
     }
     let ctx = Ctx {
@@ -634,6 +640,12 @@ fn body(run: &Run, replay: Option<&Value>) {
     };
     spaces_f2(&ctx, &base);
     spaces_f2_ids(&ctx, &base);
+    extra::spaces_templates(&ctx, &base);
+    extra::spaces_malformed(&ctx, &base);
+    extra::spaces_axes(&ctx, &base);
+    if run.tier == Tier::Thorough {
+        spaces_f2_three_large(&ctx, &base);
+    }
     spaces_f1(&ctx, &base);
     spaces_two(&ctx, &base);
     groups::run_groups(&ctx, &base);
@@ -658,6 +670,11 @@ fn replay_case(run: &Run, base: &BaseTables, case: &Value) {
     }
     if kind.starts_with("ext") {
         ext::replay(run, base, case);
+        return;
+    }
+    if kind == "f2-bad-crash" {
+        let ctx = Ctx { run, sink: Mutex::new(Local::default()) };
+        extra::spaces_malformed(&ctx, base);
         return;
     }
     if kind.starts_with("gate") {
@@ -862,10 +879,15 @@ fn spaces_f2(ctx: &Ctx, base: &BaseTables) {
     }
 
     // --- two entries: full shapes for both (quick: second entry un-ignored only), all child options
+    // quick: second entry un-ignored, without the "flag present but empty" and "bias 1" shapes (44 of 60)
     let second: Vec<E2> = if thorough {
         full.clone()
     } else {
         own_shapes(true)
+            .into_iter()
+            .filter(|e| !(e.fds && e.features.is_empty() && e.segs.is_empty()))
+            .filter(|e| !matches!(&e.cps, Cps::Set { bias: 1, .. }))
+            .collect()
     };
     let ch0 = child_options(0, true);
     let ch1 = child_options(1, true);
@@ -907,7 +929,12 @@ fn spaces_f2(ctx: &Ctx, base: &BaseTables) {
     let red = own_shapes(false);
     let red_i = with_ignored(&red);
     run.bound("f2_entry_shapes_reduced", json!(red_i.len()));
-    let e0s: Vec<E2> = red_i.clone();
+    // quick: ignored variants of the first entry only for every other shape
+    let e0s: Vec<E2> = if thorough {
+        red_i.clone()
+    } else {
+        red_i.iter().enumerate().filter(|(i, e)| !e.ignored || i % 4 == 1).map(|(_, e)| e.clone()).collect()
+    };
     let e1s: Vec<E2> = if thorough { red_i.clone() } else { red.clone() };
     let e2s: Vec<E2> = red.clone();
     let c1 = child_options(1, false);
@@ -944,6 +971,47 @@ fn spaces_f2(ctx: &Ctx, base: &BaseTables) {
             ctx.merge(l);
         });
     }
+}
+
+/// thorough only: three-entry tables with the FULL shape alphabet on the first two entries
+/// (120 x 60 shapes), the reduced one on the third, children over all subsets of earlier entries
+fn spaces_f2_three_large(ctx: &Ctx, base: &BaseTables) {
+    let defs = defs_f2(true);
+    let sds: Vec<_> = defs.iter().map(to_subset_definition).collect();
+    let pairs = subset_pairs(&defs);
+    let e0s = with_ignored(&own_shapes(true));
+    let e1s = own_shapes(true);
+    let e2s = own_shapes(false);
+    let c1 = child_options(1, false);
+    let c2 = child_options(2, false);
+    ctx.run.count(
+        "f2_tables_3_entries_large_alphabet",
+        (e0s.len() * e1s.len() * e2s.len() * c1.len() * c2.len()) as u64,
+    );
+    let (e0s, e1s, e2s, c1, c2, defs, sds, pairs) = (&e0s, &e1s, &e2s, &c1, &c2, &defs, &sds, &pairs);
+    par_for(e0s.len() * e1s.len(), |k| {
+        let mut l = Local::default();
+        let (i0, i1) = (k / e1s.len(), k % e1s.len());
+        for x in e2s.iter() {
+            for ca in c1.iter() {
+                for cb in c2.iter() {
+                    let a = e0s[i0].clone();
+                    let mut b = e1s[i1].clone();
+                    b.children = ca.clone();
+                    let mut c = x.clone();
+                    c.children = cb.clone();
+                    let t = TableModel::F2(t2_of(vec![a, b, c]));
+                    let fc = FontCase {
+                        kind: "f2-3L",
+                        ift: Some(&t),
+                        iftx: None,
+                    };
+                    check_font(ctx, base, &fc, defs, sds, pairs, &mut l);
+                }
+            }
+        }
+        ctx.merge(l);
+    });
 }
 
 fn par_tables(
